@@ -29,7 +29,7 @@ var BreakKinds = []string{
 	"duplicate/field-id/struct", "duplicate/field-id/union", "duplicate/field-id/exception", "duplicate/field-id/args", "duplicate/field-id/throws",
 	"duplicate/function-name", "duplicate/enum-value-name", "duplicate/enum-number",
 	"enum/value-above-int32", "enum/value-below-int32",
-	"type/undefined-local", "type/undefined-in-include", "type/unknown-include-prefix", "type/constant-used-as-type", "type/service-used-as-type",
+	"type/undefined-local", "type/undefined-in-include", "type/unknown-include-prefix", "type/constant-used-as-type", "type/service-used-as-type", "type/included-service-used-as-type", "type/included-constant-used-as-type",
 	"type/undefined-in-container", "type/undefined-typedef-target", "type/undefined-function-result", "type/undefined-argument", "type/undefined-throws", "type/undefined-const-type",
 	"typedef/cycle", "typedef/self", "typedef/cycle-with-selector-constant",
 	"value/undefined-identifier", "value/undefined-identifier-in-include", "value/undefined-enum-member", "value/ambiguous-identifier", "value/ambiguous-identifier-two-includes",
@@ -279,6 +279,30 @@ func Break(rng *vlib.Rng, p *Program, kind string) (b *Broken, ok bool) {
 					continue
 				}
 				bad = undefined(cs[rng.Intn(len(cs))].Name)
+			case "included-service-used-as-type", "included-constant-used-as-type":
+				k := KService
+				if parts[1] == "included-constant-used-as-type" {
+					k = KConst
+				}
+				var names []string
+				for _, inc := range f.Includes {
+					n := 0
+					for _, other := range f.Includes {
+						if other.File.Prefix() == inc.File.Prefix() {
+							n++
+						}
+					}
+					if n != 1 {
+						continue
+					}
+					for _, d := range inc.File.DefsOf(k) {
+						names = append(names, inc.File.Prefix()+"."+d.Name)
+					}
+				}
+				if len(names) == 0 {
+					continue
+				}
+				bad = undefined(names[rng.Intn(len(names))])
 			}
 			// positions
 			type slot struct {
